@@ -973,7 +973,7 @@ def check_gen(prop, tier, seed, work):
                explanation="SchemaGen.tla: abstract schemas (plain / OpenConfig shape x key types x second key type x ordered-by x leaf-list type x extras: "
                "colliding names, choice, grouping, augment, presence, config false subtree with unkeyed and keyed lists, identityref, leafref) x the five "
                "compression behaviours, with TLC-checked ExactlyOnce / PathsDistinct / StateExcluded; " + expl + ". Flag sets rotate over the cases: " +
-               "min (simple unions), full (all generate_* options, annotations, presence tags, wrapper unions), alt (no ordered maps, no enum de-duplication, shadow paths). "
+               "min (simple unions), full (all generate_* options, annotations, presence tags, wrapper unions), alt (no ordered maps, populate defaults, no enum de-duplication, shadow paths), ann (annotations with shadow paths and getters). "
                "Not random schemas: the feature space of the model, enumerated.")
     return cov, viol
 
@@ -1011,7 +1011,8 @@ def check_c25(tier, seed, work):
     cs = [genfam.Case(i, m, fs) for i, (m, fs) in enumerate(sel)]
     runs = 4 if tier == "quick" else 10
     procs = [1, 2, 16, 5, 3, 8, 1, 16, 4, 7]
-    PSETS = {"min": ["-generate_fakeroot"], "full": ["-generate_fakeroot", "-package_hierarchy"], "alt": ["-generate_fakeroot", "-skip_enum_deduplication"]}
+    PSETS = {"min": ["-generate_fakeroot"], "full": ["-generate_fakeroot", "-package_hierarchy"], "alt": ["-generate_fakeroot", "-skip_enum_deduplication"],
+             "ann": ["-generate_fakeroot", "-package_hierarchy", "-skip_enum_deduplication"]}
 
     def digest(d):
         hh = hashlib.sha256()
@@ -1110,7 +1111,7 @@ def check_c28(tier, seed, work):
     genfam.build_tools(h, bindir)
     cs = [genfam.Case(i, m, fs) for i, (m, fs) in enumerate(sel)]
     PSETS = {"min": ["-generate_fakeroot"], "full": ["-generate_fakeroot", "-package_hierarchy"],
-             "alt": ["-generate_fakeroot", "-skip_enum_deduplication", "-add_enumnames=false"]}
+             "alt": ["-generate_fakeroot", "-skip_enum_deduplication", "-add_enumnames=false"], "ann": ["-generate_fakeroot", "-package_hierarchy", "-skip_enum_deduplication"]}
     viol = []
     counters = dict(cases=len(cs), files=0, messages_fields=0, tags_compared=0, generator_errors=0)
     tagmap = {}     # (schemapath annotation, member field name) -> (number, where)
